@@ -163,3 +163,23 @@ Proof.
   - intros w top lts we E k Hr Hi Hs. exact (RT_root_binop ns w top lts we E k Hr Hi Hs).
 Qed.
 Print Assumptions C10_bare_root.
+
+(* ------------------------------------------------------------------ *)
+(* WHITE SPACE, at the level of VALUES: for every round-trip expression e and every admissible
+   white-space layout w, Compile of the laid-out text is Compile of the minimal text, so Select and
+   Evaluate give the same results — value(w(e)) = value(e). *)
+From XP Require Import Doc Build Api.
+From XP.Proofs Require Import EndToEndLayout.
+
+Theorem C10_white_space_preserves_values : forall re_ok ns w e,
+  ws_fun w -> xwf e -> xok e -> xdepth e < max_depth ->
+  compile re_ok (print_ws w e) ns = compile re_ok (print_min e) ns /\
+  compile re_ok (print_sp e) ns = compile re_ok (print_min e) ns /\
+  forall q, compile re_ok (print_min e) ns = Ok q ->
+    compile re_ok (print_ws w e) ns = Ok q /\
+    forall rm rn rr (hc : tree -> node -> N) D has_ns c q',
+      compile re_ok (print_ws w e) ns = Ok q' ->
+      evaluate rm rn rr hc D has_ns q' c = evaluate rm rn rr hc D has_ns q c /\
+      select rm rn rr hc D has_ns q' c = select rm rn rr hc D has_ns q c.
+Proof. exact evaluate_layout_independent. Qed.
+Print Assumptions C10_white_space_preserves_values.
